@@ -40,9 +40,14 @@ type fallbackGenerator struct {
 	counter uint64
 }
 
+// fallbackGenerators numbers the fallback generators of this process: the clock alone does
+// not tell apart two generators created within one clock tick.
+var fallbackGenerators uint64
+
 func NewFallbackGenerator() IGenerator {
+	n := atomic.AddUint64(&fallbackGenerators, 1)
 	return &fallbackGenerator{
-		prefix: strconv.FormatInt(time.Now().UnixNano(), 36),
+		prefix: strconv.FormatInt(time.Now().UnixNano(), 36) + "." + strconv.FormatUint(n, 36),
 	}
 }
 
